@@ -25,6 +25,7 @@ use std::panic::{catch_unwind, AssertUnwindSafe};
 use std::rc::Rc;
 use vharness::*;
 
+mod oracle_c02;
 mod oracle_c06;
 mod step;
 use step::Step;
@@ -440,11 +441,21 @@ fn gen_op(rng: &mut Rng, s: &Session, pool: &[(Syllable, Vec<KeyCode>)], pending
         return Op::Key(code, m);
     }
     let selecting = s.ed.is_selecting();
+    // C02: a commit string is still in the buffer and symbols remain (an overflow just happened): make the
+    // next overflow come from `select()`, which does not reset the commit buffer first
+    if !selecting
+        && s.ed.last_key_behavior() == EditorKeyBehavior::Commit
+        && !s.ed.is_empty()
+        && !s.ed.display_commit().is_empty()
+        && rng.chance(1, 3)
+    {
+        return overflow_by_select(rng, s, pending);
+    }
     let w: Vec<u32> = if selecting {
-        //   syl sym  nav del  open page choose tab commit mode opts api  learn reset jump
-        vec![2, 1, 2, 1, 1, 14, 10, 0, 1, 1, 2, 6, 1, 1, 4]
+        //   syl sym  nav del  open page choose tab commit mode opts api  learn reset jump phrase break ovsel
+        vec![2, 1, 2, 1, 1, 14, 10, 0, 1, 1, 2, 6, 1, 1, 4, 0, 0, 0]
     } else {
-        vec![30, 8, 10, 6, 10, 1, 2, 5, 3, 3, 4, 4, 3, 1, 0]
+        vec![30, 8, 10, 6, 10, 1, 2, 5, 3, 3, 4, 4, 3, 1, 0, 8, 3, 2]
     };
     match rng.weighted(&w) {
         0 => {
@@ -513,8 +524,56 @@ fn gen_op(rng: &mut Rng, s: &Session, pool: &[(Syllable, Vec<KeyCode>)], pending
             }
         }
         13 => Op::Clear,
-        _ => Op::Jump(rng.below(4) as u8),
+        14 => Op::Jump(rng.below(4) as u8),
+        15 => {
+            // type the syllables of a phrase the dictionary knows (so that alternatives read differently,
+            // phrase intervals get committed, breaks can fall inside a phrase)
+            let known: Vec<&(Vec<Syllable>, String, u32)> = s
+                .sys
+                .iter()
+                .flatten()
+                .filter(|e| e.0.len() >= 2 && e.0.iter().all(|x| pool.iter().any(|p| p.0 == *x)))
+                .collect();
+            if known.is_empty() {
+                return Op::Key(Tab, plain);
+            }
+            let e = *rng.pick(&known);
+            let mut seq: Vec<Op> = vec![];
+            for syl in &e.0 {
+                let keys = &pool.iter().find(|p| p.0 == *syl).unwrap().1;
+                seq.extend(keys.iter().map(|k| Op::Key(*k, plain)));
+            }
+            if rng.chance(1, 3) {
+                seq.push(Op::Key(Tab, plain));
+            }
+            seq.reverse();
+            let first = seq.pop().unwrap();
+            pending.extend(seq);
+            first
+        }
+        16 => {
+            // a break / glue inside the buffer
+            pending.push(Op::Key(Tab, plain));
+            if rng.chance(1, 2) {
+                pending.push(Op::Key(Left, plain));
+            }
+            Op::Key(Left, plain)
+        }
+        _ => overflow_by_select(rng, s, pending),
     }
+}
+
+/// lower the threshold below the current length, open the candidate list through the API, choose
+fn overflow_by_select(rng: &mut Rng, s: &Session, pending: &mut Vec<Op>) -> Op {
+    let len = s.ed.len();
+    if len == 0 {
+        return Op::StartSel;
+    }
+    let mut o = s.ed.editor_options();
+    o.auto_commit_threshold = rng.below(len as u64) as usize;
+    pending.push(Op::Select(*rng.pick(&[0usize, 0, 0, 1])));
+    pending.push(Op::StartSel);
+    Op::SetOpts(o)
 }
 
 fn op_s(op: &Op, ev: &Option<KeyEvent>) -> String {
@@ -624,6 +683,11 @@ fn main() {
         for _ in 0..rng.below(4) {
             o = gen_opts(&mut rng, &o, engine_kind);
         }
+        // C02: every third session starts with a small buffer limit (own stream: the other choices are unchanged)
+        let mut rng_c02 = Rng::new(seed.wrapping_mul(7_777_777).wrapping_add(sid));
+        if rng_c02.chance(1, 3) {
+            o.auto_commit_threshold = rng_c02.below(8) as usize;
+        }
         ed.set_editor_options(o);
         let mut s = Session { ed, lay, conv_log, user: user_ptr, sys, layout_kind };
         let uniform = rng.chance(1, 8);
@@ -639,6 +703,9 @@ fn main() {
             let pre = s.ed.verif_snapshot();
             let dict_pre = s.dict_s();
             let lay_ans = s.layout_answers(ev);
+            // what the application sees before the operation (C02); getters only, before the log is reset
+            let display_pre = catch_unwind(AssertUnwindSafe(|| s.ed.display())).ok();
+            let len_pre = s.ed.len();
             s.conv_log.borrow_mut().clear();
             let st_ix = match pre.as_bytes()[0] {
                 b'E' => 0,
@@ -702,6 +769,7 @@ fn main() {
             }));
             n_ops += 1;
             let conv_ans = s.conv_answers();
+            let conv_step = s.conv_log.borrow().clone();
             let mut opstr = op_s(&op, &ev);
             if let Op::SetLayout(_) = op {
                 let _ = write!(opstr, " {}", if new_layout_state.is_empty() { lay_state(&**s.lay.borrow()) } else { new_layout_state.clone() });
@@ -714,11 +782,16 @@ fn main() {
                     let post = s.ed.verif_snapshot();
                     let dict_post = s.dict_s();
                     history.push(opstr.clone());
+                    let display_post = catch_unwind(AssertUnwindSafe(|| s.ed.display())).ok();
+                    let commit_post = s.ed.display_commit().to_string();
                     let step = Step {
                         op: &opstr, key: ev, pre: &pre, post: &post, ret: &ret,
                         dict_pre: &dict_pre, dict_post: &dict_post, history: &history, seed, sid,
+                        display_pre: display_pre.as_deref(), display_post: display_post.as_deref(),
+                        len_pre, len_post: s.ed.len(), commit_post: &commit_post, conv: &conv_step,
                     };
                     // the properties, evaluated directly on the real editor (one module per property)
+                    oracle_c02::check(&mut out, &step);
                     oracle_c06::check(&mut out, &step);
                     out.rec(&format!(
                         "ed {} | {} | {} | {} {} => ok | {} | {} | {}",
@@ -752,5 +825,6 @@ fn main() {
     out.stat("beh_commit", beh_hist[1]);
     out.stat("beh_bell", beh_hist[2]);
     out.stat("beh_absorb", beh_hist[3]);
+    oracle_c02::stats(&mut out);
     out.flush();
 }
